@@ -475,6 +475,10 @@ func genC05(cfg runCfg, e *emitter, rng *rand.Rand) {
 		e.line("RESET")
 		rf := &refForest{}
 		is := newImplSet(rows)
+		is.addPartials([]uint8{63, 0, 4})
+		for _, pi := range is.parts {
+			pi.lazy = false
+		}
 		nb := 2 + rng.Intn(9)
 		sig := ""
 		for b := 0; b < nb; b++ {
@@ -518,6 +522,12 @@ func genC05(cfg runCfg, e *emitter, rng *rand.Rand) {
 					e.hfail("Modify."+mapName(m), "accepted block not applied: %s", r)
 				}
 			}
+			// partial forests: the same non-canonical encoding is verified with remember, then applied
+			rem := make([]bool, len(adds))
+			for i := range rem {
+				rem[i] = rng.Intn(2) == 0
+			}
+			is.applyPartials(e, hh, adds, enc, rem)
 			rf.apply(dels, adds)
 			e.line("BLOCKT %s %s", us(ts), hs(adds))
 			emitRoots(e, is)
